@@ -268,7 +268,115 @@ def check_multi(ctx, case):
       return
 
 
+def check_view(ctx, case):
+  """Request preprocessing (View._preprocess_optimization_metrics / _preprocess_constraint_metrics): the arrays the view
+  hands to the models are the model's normalisation of the request's metric columns, failures carry the scaled
+  constant-liar-min value, thresholds go through the same map (None -> NaN)."""
+  import gen_requests as G
+  spec = case["spec"]
+  params = G.build_params(spec)
+  G.seed_library(spec)
+  view = G.view_class(spec["endpoint"])(params)
+  fails = [bool(f) for f in spec["failures"]]
+  n = len(fails)
+  groups = [("optimized", spec["optimized_index"], view.points_sampled_for_af_values, view.points_sampled_for_af_value_vars,
+             view.scaled_optimized_lie_values, view.optimized_metrics_thresholds)]
+  if spec["constraint_index"]:
+    groups.append(("constraint", spec["constraint_index"], view.points_sampled_for_pf_values, view.points_sampled_for_pf_value_vars,
+                   view.scaled_constraint_lie_values, view.constraint_thresholds))
+  for gname, idx, got_vals, got_vars, got_lie, got_thr in groups:
+    if not idx:
+      continue
+    cols = [[float(spec["values"][a][i]) for a in range(n)] for i in idx]
+    vcols = [[float(spec["value_vars"][a][i]) for a in range(n)] for i in idx]
+    objs = [spec["objectives"][i] for i in idx]
+    thrs = [spec["thresholds"][i] for i in idx]
+    got_vals = numpy.asarray(got_vals, dtype=float).reshape(n, len(idx))
+    got_vars = numpy.asarray(got_vars, dtype=float).reshape(n, len(idx))
+    got_lie = numpy.asarray(got_lie, dtype=float).reshape(len(idx))
+    got_thr = numpy.asarray(got_thr, dtype=float).reshape(len(idx))
+    if not (finite(got_vals) and finite(got_vars) and finite(got_lie)):
+      ctx.violation(f"C12 view: non-finite scaled {gname} data", {"case": case, "group": gname})
+      return
+    # ---- direct oracles: failures carry the scaled lie, which is the worst (largest) scaled value; the map respects
+    # the user's order between any value and the threshold of its metric
+    for k, o in enumerate(objs):
+      col = cols[k]
+      ok_rows = [a for a in range(n) if not fails[a]]
+      for a in range(n):
+        if fails[a] and got_vals[a, k] != got_lie[k]:
+          ctx.violation(f"C12 view: a failed observation does not carry the scaled constant-liar-min value ({gname} metric {k})",
+                        {"case": case, "row": a, "value": float(got_vals[a, k]), "lie": float(got_lie[k])})
+          return
+      if any(got_vals[a, k] > got_lie[k] for a in ok_rows):
+        ctx.violation(f"C12 view: the scaled lie is not the worst scaled value ({gname} metric {k})", {"case": case, "lie": float(got_lie[k])})
+        return
+      for a in ok_rows:
+        for b in ok_rows[:8]:
+          if better(o, col[a], col[b]) and got_vals[a, k] > got_vals[b, k]:
+            ctx.violation(f"C12 view: order flipped by request preprocessing ({gname} metric {k})", {"case": case, "a": col[a], "b": col[b]})
+            return
+      if thrs[k] is None:
+        if not math.isnan(got_thr[k]):
+          ctx.violation(f"C12 view: a missing threshold became {got_thr[k]}", {"case": case, "metric": k})
+          return
+      else:
+        vm = max(abs(x) for x in col + [thrs[k]]) + 1e-300
+        for a in ok_rows:
+          if abs(col[a] - thrs[k]) > 1e-6 * vm and better(o, col[a], thrs[k]) != bool(got_vals[a, k] < got_thr[k]):
+            ctx.violation(f"C12 view: scaled threshold is on the wrong side of a scaled value ({gname} metric {k})",
+                          {"case": case, "value": col[a], "threshold": thrs[k], "scaled_value": float(got_vals[a, k]), "scaled_threshold": float(got_thr[k])})
+            return
+    # ---- correspondence with the Lean normalisation model
+    if ctx.driver is None:
+      continue
+    r = ctx.driver.call({"op": "multi", "cols": frm(cols), "fails": fails, "objectives": objs})
+    if "error" in r:
+      ctx.disagree("driver error " + r["error"], case)
+      return
+    mf = unfrm(r["fwd"])
+    skip = any(i["skip"] for i in r["infos"])
+    ctx.count(f"view {gname}" + (" skip" if skip else ""))
+    for k in range(len(idx)):
+      nf = [v for v, f in zip(cols[k], fails) if not f]
+      info = r["infos"][k]
+      neg = float(unfr(info["negate"]))
+      if skip:
+        ms, mm = 1.0, 0.0
+      else:
+        hw = (Fraction(max(nf)) - Fraction(min(nf))) / 2
+        if abs(hw - Fraction(1, 10 ** 8)) <= Fraction(1, 10 ** 20):
+          continue
+        ms, mm = float(unfr(info["scale"])), float(unfr(info["mid"]))
+      lie = float(unfr(r["lies"][k][0]))
+      mlie = neg * ms * (lie - mm)
+      tol_l = 16 * EPS * ms * (abs(lie) + abs(mm)) + 1e-300
+      if abs(mlie - got_lie[k]) > tol_l:
+        ctx.disagree(f"view {gname} metric {k}: scaled lie model {mlie} impl {got_lie[k]}", case)
+        return
+      for a in range(n):
+        if fails[a]:
+          continue
+        m = float(mf[k][a])
+        if abs(m - got_vals[a, k]) > 16 * EPS * ms * (abs(cols[k][a]) + abs(mm)) + 1e-300:
+          ctx.disagree(f"view {gname} metric {k} row {a}: scaled value model {m} impl {got_vals[a, k]}", case)
+          return
+        want = max(vcols[k][a], 1e-6) if skip else max(vcols[k][a] * ms * ms, 1e-10)
+        if abs(want - got_vars[a, k]) > 16 * EPS * want:
+          ctx.disagree(f"view {gname} metric {k} row {a}: scaled variance model {want} impl {got_vars[a, k]}", case)
+          return
+      if thrs[k] is not None:
+        mt = neg * ms * (thrs[k] - mm)
+        if abs(mt - got_thr[k]) > 16 * EPS * ms * (abs(thrs[k]) + abs(mm)) + 1e-300:
+          ctx.disagree(f"view {gname} metric {k}: scaled threshold model {mt} impl {got_thr[k]}", case)
+          return
+
+
 def check_case(ctx, case):
+  if case["kind"] == "view":
+    check_view(ctx, case)
+    ctx.case(key=case, nontrivial=True)
+    return
   if case["kind"] == "single":
     check_single(ctx, case)
     nf = sorted({v for v, f in zip(case["vals"], case["fails"]) if not f})
@@ -303,5 +411,12 @@ def run(ctx, scale):
   n = (1500 if ctx.tier == "quick" else 40000) * scale
   for _ in range(n):
     check_case(ctx, gen_case(ctx.rng))
+    if len(ctx.violations) >= 5:
+      break
+  # request preprocessing in views/view.py on generated requests (all metric layouts, thresholds, failures)
+  import gen_requests as G
+  for _ in range((150 if ctx.tier == "quick" else 3000) * scale):
+    spec = G.gen_request(ctx.rng, "gp_ei", tasks=0, pending=0, n=ctx.rng.choice([1, 2, 3, 6, 12, 25]))
+    check_case(ctx, {"kind": "view", "spec": spec})
     if len(ctx.violations) >= 5:
       break
